@@ -101,6 +101,8 @@ def run_upload(kind, size, thr, chunk, off=0, nd=(), body_reads=(), resend=0, pr
         c.src = None
     elif kind == 'seekable':
         src = c.src = F.FakeFile(off + size, off, env, 'src')
+    elif kind == 'duck':
+        src = c.src = F.DuckFile(off + size, off, env)
     else:
         src = c.src = F.NonSeekableSource(size, env, short=short)
     c.subs = [F.RecSubscriber(env, 's%d' % i, size=size if (known_size and i == 0) else None)
